@@ -357,6 +357,7 @@ package sqlx
 //@ spec 	d, ok := c.(*schema.DropForeignKey)
 //@ spec 	return ok && SameTable(d.F.RefTable, t)
 //@ spec }
+//@ rec gvcDepChangeOK
 //@ spec func gvcDepChangeOK(c schema.Change) bool {
 //@ spec 	return (!GvcIs[*schema.AddTable](c) || (c.(*schema.AddTable) != nil && c.(*schema.AddTable).T != nil)) &&
 //@ spec 		(!GvcIs[*schema.DropTable](c) || (c.(*schema.DropTable) != nil && c.(*schema.DropTable).T != nil)) &&
@@ -393,3 +394,118 @@ package sqlx
 //@           gvcFKRefs(c2.(*schema.DropTable).T.ForeignKeys, c1.(*schema.DropTable).T) ==> r
 //@   ensures table-dropped-after-foreign-keys-to-it: GvcIs[*schema.DropTable](c1) && GvcIs[*schema.ModifyTable](c2) &&
 //@           (exists k int :: 0 <= k && k < len(c2.(*schema.ModifyTable).Changes) && gvcDropsFKTo(c2.(*schema.ModifyTable).Changes[k], c1.(*schema.DropTable).T)) ==> r
+
+// ---------------------------------------------------------------------------------------
+// C04: dependencies (adjacency list used for cycle detection) is edge complete
+
+//@ spec func gvcFKOK(fk *schema.ForeignKey) bool {
+//@ spec 	return fk != nil && fk.Table != nil && fk.RefTable != nil
+//@ spec }
+//@ spec func gvcHasDep(l []*schema.Table, t *schema.Table) bool { return (some q int :: 0 <= q && q < len(l) && l[q] == t) }
+
+//@ func checkFK(fk *schema.ForeignKey) (err error)
+//@   requires fk != nil
+//@   modifies nothing
+//@   ensures complete-keys-pass: err == nil ==> fk.Table != nil && fk.RefTable != nil
+
+
+//@ func isDropped(changes []schema.Change, t *schema.Table) (r bool)
+//@   requires t != nil
+//@   requires (forall k int :: 0 <= k && k < len(changes) ==> gvcDepChangeOK(changes[k]))
+//@   pure
+//@   modifies nothing
+//@   ensures true-iff-a-drop-of-that-name-is-listed: r == (exists i int :: 0 <= i && i < len(changes) && GvcIs[*schema.DropTable](changes[i]) && changes[i].(*schema.DropTable).T.Name == t.Name)
+//@   loop 1 invariant 0 <= loopk && loopk <= len(changes)
+//@   loop 1 invariant (forall i int :: 0 <= i && i < loopk ==> !(GvcIs[*schema.DropTable](changes[i]) && changes[i].(*schema.DropTable).T.Name == t.Name))
+
+// Edges recorded for the first n changes.  Creation side: a created table, or a table that
+// gets a foreign key added or re-pointed, lists the referenced table (unless it is itself).
+//@ spec func gvcAddEdgesIn(deps map[string][]*schema.Table, changes []schema.Change, n int) bool {
+//@ spec 	return (forall i int, j int :: 0 <= i && i < n && GvcIs[*schema.AddTable](changes[i]) &&
+//@ spec 		0 <= j && j < len(changes[i].(*schema.AddTable).T.ForeignKeys) &&
+//@ spec 		changes[i].(*schema.AddTable).T.ForeignKeys[j].RefTable != changes[i].(*schema.AddTable).T ==>
+//@ spec 		gvcHasDep(deps[changes[i].(*schema.AddTable).T.Name], changes[i].(*schema.AddTable).T.ForeignKeys[j].RefTable))
+//@ spec }
+//@ spec func gvcModEdge(deps map[string][]*schema.Table, t *schema.Table, c schema.Change) bool {
+//@ spec 	if a, ok := c.(*schema.AddForeignKey); ok {
+//@ spec 		return a.F.RefTable == t || gvcHasDep(deps[t.Name], a.F.RefTable)
+//@ spec 	}
+//@ spec 	if m, ok := c.(*schema.ModifyForeignKey); ok {
+//@ spec 		return m.To.RefTable == t || gvcHasDep(deps[t.Name], m.To.RefTable)
+//@ spec 	}
+//@ spec 	return true
+//@ spec }
+//@ spec func gvcModEdgesIn(deps map[string][]*schema.Table, changes []schema.Change, n int) bool {
+//@ spec 	return (forall i int, k int :: 0 <= i && i < n && GvcIs[*schema.ModifyTable](changes[i]) &&
+//@ spec 		0 <= k && k < len(changes[i].(*schema.ModifyTable).Changes) ==>
+//@ spec 		gvcModEdge(deps, changes[i].(*schema.ModifyTable).T, changes[i].(*schema.ModifyTable).Changes[k]))
+//@ spec }
+// Drop side: when the referenced table is dropped in the same set, it lists the referencing table.
+//@ spec func gvcDropEdgesIn(deps map[string][]*schema.Table, changes []schema.Change, n int) bool {
+//@ spec 	return (forall i int, j int :: 0 <= i && i < n && GvcIs[*schema.DropTable](changes[i]) &&
+//@ spec 		0 <= j && j < len(changes[i].(*schema.DropTable).T.ForeignKeys) &&
+//@ spec 		isDropped(changes, changes[i].(*schema.DropTable).T.ForeignKeys[j].RefTable) ==>
+//@ spec 		gvcHasDep(deps[changes[i].(*schema.DropTable).T.ForeignKeys[j].RefTable.Name], changes[i].(*schema.DropTable).T.ForeignKeys[j].Table))
+//@ spec }
+
+//@ spec func gvcModDropEdge(deps map[string][]*schema.Table, changes []schema.Change, c schema.Change) bool {
+//@ spec 	d, ok := c.(*schema.DropForeignKey)
+//@ spec 	return !ok || !isDropped(changes, d.F.RefTable) || gvcHasDep(deps[d.F.RefTable.Name], d.F.Table)
+//@ spec }
+//@ spec func gvcModDropEdgesIn(deps map[string][]*schema.Table, changes []schema.Change, n int) bool {
+//@ spec 	return (forall i int, k int :: 0 <= i && i < n && GvcIs[*schema.ModifyTable](changes[i]) &&
+//@ spec 		0 <= k && k < len(changes[i].(*schema.ModifyTable).Changes) ==>
+//@ spec 		gvcModDropEdge(deps, changes, changes[i].(*schema.ModifyTable).Changes[k]))
+//@ spec }
+
+//@ func dependencies(changes []schema.Change) (deps map[string][]*schema.Table, err error)
+//@   requires (forall k int :: 0 <= k && k < len(changes) ==> gvcDepChangeOK(changes[k]))
+//@   requires (forall m *schema.ModifyTable, k int :: m != nil && 0 <= k && k < len(m.Changes) ==> gvcDepChangeOK(m.Changes[k]))
+//@   requires (forall t *schema.Table, i int :: t != nil && 0 <= i && i < len(t.ForeignKeys) ==> t.ForeignKeys[i] != nil)
+//@   modifies nothing
+//@   ensures created-table-points-at-its-parents: err == nil ==> gvcAddEdgesIn(deps, changes, len(changes))
+//@   ensures nested-foreign-key-changes-are-recorded: err == nil ==> gvcModEdgesIn(deps, changes, len(changes))
+//@   ensures dropped-parent-points-at-table-losing-the-foreign-key: err == nil ==> gvcModDropEdgesIn(deps, changes, len(changes))
+//@   ensures dropped-parent-points-at-dropped-child: err == nil ==> gvcDropEdgesIn(deps, changes, len(changes))
+//@   loop 1 localwrites
+//@   loop 1 common deps != nil && GvcFresh(deps)
+//@   loop 1 common (forall s string :: deps[s] == nil || GvcFresh(deps[s]))
+//@   loop 1 common (forall s1 string, s2 string :: s1 != s2 && deps[s1] != nil && deps[s2] != nil ==> GvcBase(deps[s1]) != GvcBase(deps[s2]))
+//@   loop 2 localwrites
+//@   loop 2 common deps != nil && GvcFresh(deps)
+//@   loop 2 common (forall s string :: deps[s] == nil || GvcFresh(deps[s]))
+//@   loop 2 common (forall s1 string, s2 string :: s1 != s2 && deps[s1] != nil && deps[s2] != nil ==> GvcBase(deps[s1]) != GvcBase(deps[s2]))
+//@   loop 3 localwrites
+//@   loop 3 common deps != nil && GvcFresh(deps)
+//@   loop 3 common (forall s string :: deps[s] == nil || GvcFresh(deps[s]))
+//@   loop 3 common (forall s1 string, s2 string :: s1 != s2 && deps[s1] != nil && deps[s2] != nil ==> GvcBase(deps[s1]) != GvcBase(deps[s2]))
+//@   loop 4 localwrites
+//@   loop 4 common deps != nil && GvcFresh(deps)
+//@   loop 4 common (forall s string :: deps[s] == nil || GvcFresh(deps[s]))
+//@   loop 4 common (forall s1 string, s2 string :: s1 != s2 && deps[s1] != nil && deps[s2] != nil ==> GvcBase(deps[s1]) != GvcBase(deps[s2]))
+//@   loop 1 invariant 0 <= loopk && loopk <= len(changes)
+//@   loop 1 invariant gvcAddEdgesIn(deps, changes, loopk)
+//@   loop 1 invariant gvcModEdgesIn(deps, changes, loopk)
+//@   loop 1 invariant gvcDropEdgesIn(deps, changes, loopk)
+//@   loop 1 invariant gvcModDropEdgesIn(deps, changes, loopk)
+//@   loop 2 common 0 <= loopi1 && loopi1 < len(changes) && GvcIs[*schema.AddTable](changes[loopi1]) && 0 <= loopk && loopk <= len(changes[loopi1].(*schema.AddTable).T.ForeignKeys)
+//@   loop 3 common 0 <= loopi1 && loopi1 < len(changes) && GvcIs[*schema.DropTable](changes[loopi1]) && 0 <= loopk && loopk <= len(changes[loopi1].(*schema.DropTable).T.ForeignKeys)
+//@   loop 4 common 0 <= loopi1 && loopi1 < len(changes) && GvcIs[*schema.ModifyTable](changes[loopi1]) && 0 <= loopk && loopk <= len(changes[loopi1].(*schema.ModifyTable).Changes)
+//@   loop 2 invariant gvcAddEdgesIn(deps, changes, loopi1)
+//@   loop 2 invariant gvcModEdgesIn(deps, changes, loopi1)
+//@   loop 2 invariant gvcDropEdgesIn(deps, changes, loopi1)
+//@   loop 2 invariant gvcModDropEdgesIn(deps, changes, loopi1)
+//@   loop 3 invariant gvcAddEdgesIn(deps, changes, loopi1)
+//@   loop 3 invariant gvcModEdgesIn(deps, changes, loopi1)
+//@   loop 3 invariant gvcDropEdgesIn(deps, changes, loopi1)
+//@   loop 3 invariant gvcModDropEdgesIn(deps, changes, loopi1)
+//@   loop 4 invariant gvcAddEdgesIn(deps, changes, loopi1)
+//@   loop 4 invariant gvcModEdgesIn(deps, changes, loopi1)
+//@   loop 4 invariant gvcDropEdgesIn(deps, changes, loopi1)
+//@   loop 4 invariant gvcModDropEdgesIn(deps, changes, loopi1)
+//@   loop 2 invariant (forall j int :: 0 <= j && j < loopk && changes[loopi1].(*schema.AddTable).T.ForeignKeys[j].RefTable != changes[loopi1].(*schema.AddTable).T ==>
+//@           gvcHasDep(deps[changes[loopi1].(*schema.AddTable).T.Name], changes[loopi1].(*schema.AddTable).T.ForeignKeys[j].RefTable))
+//@   loop 3 invariant (forall j int :: 0 <= j && j < loopk && isDropped(changes, changes[loopi1].(*schema.DropTable).T.ForeignKeys[j].RefTable) ==>
+//@           gvcHasDep(deps[changes[loopi1].(*schema.DropTable).T.ForeignKeys[j].RefTable.Name], changes[loopi1].(*schema.DropTable).T.ForeignKeys[j].Table))
+//@   loop 4 invariant (forall k int :: 0 <= k && k < loopk ==> gvcModEdge(deps, changes[loopi1].(*schema.ModifyTable).T, changes[loopi1].(*schema.ModifyTable).Changes[k]))
+//@   loop 4 invariant (forall k int :: 0 <= k && k < loopk ==> gvcModDropEdge(deps, changes, changes[loopi1].(*schema.ModifyTable).Changes[k]))
